@@ -30,7 +30,7 @@ func (c17) Budget(tier string) int {
 func (c17) Describe() engine.Info {
 	return engine.Info{
 		Rule: "class dma: the guest starts an OAM DMA from work RAM at each cycle offset of a line (index-enumerated), optionally switches the LCD off while it runs, waits for it to complete and then runs the pointer block (LCD off, or on in VBlank); class off: LCD on, k NOPs (k mod 114 enumerated by index, plus whole lines so that every mode incl. VBlank is hit), then the guest switches the LCD off and runs a block of 4..30 pointer operations in FE00-FEFF; class vblank: the guest polls LY until 144 and runs the block; class mode3: the guest polls STAT until mode 3 and runs a short block (finishes before the next mode 2). " +
-			"Oracle: OAM (side-effect-free peek) equals the reference shadow OAM at every instruction boundary, except for instructions during which the reference LCD timing was in mode 2 with the LCD on (the bug is allowed there; the shadow is re-synchronised). Signature = (class, reference mode when the LCD went off / when the block ran, line-offset bucket, kind of pointer operation). Class code-in-oam: OAM is filled with one-cycle register instructions and a jump back, the guest jumps into it at each cycle offset of a line with the LCD on; OAM may change only in instructions that overlap the OAM scan. Class dma steps a register pair inside OAM in the first cycles of the transfer; class off also reaches the first lines of the second frame.",
+			"Oracle: OAM (side-effect-free peek) equals the reference shadow OAM at every instruction boundary, except for instructions during which the reference LCD timing was in mode 2 with the LCD on (the bug is allowed there; the shadow is re-synchronised). Signature = (class, reference mode when the LCD went off / when the block ran, line-offset bucket, kind of pointer operation). Class code-in-oam: OAM is filled with one-cycle register instructions and a jump back, the guest jumps into it at each cycle offset of a line with the LCD on; OAM may change only in instructions that overlap the OAM scan. Class dma steps a register pair inside OAM in the first cycles of the transfer; class off also reaches the first lines of the second frame. Class mode3 may rewrite LCDC (objects on, then off) at the start of the OAM scan of the same line.",
 		Assumptions:    []string{"class dma: OAM is not judged while a transfer started by the guest is in flight (166 cycles); afterwards it must equal the source page and then obeys the same rule", "the reference LCD timing decides whether an instruction overlapped mode 2 (one boundary of slack on each side)"},
 		RequiredProbes: []string{"dma_started_in_mode2", "lcd_off_during_dma", "dma_completed", "lcd_off_in_mode2", "lcd_off_in_mode3", "lcd_off_in_mode0", "lcd_off_in_mode1", "pointer_op_lcd_off", "pointer_op_vblank", "pointer_op_mode3_0", "oam_write_by_cpu"},
 		RealComponents: realComponents, StubComponents: stubComponents,
